@@ -35,6 +35,11 @@ CHECKS = {
         text="Generated-input search: every interaction list of every analysed model is checked for repetition, self-interaction, membership in the analysed model, orientation and sort order; Saenger classes against a literal 28-class table (complete 7x7x18 grid, pair vs reverse); BPh/BR classes against the classes implied by base-donor atoms within 4.0 A in the analysed model's coordinates, one class per ordered pair.",
         note=TRUST + "Only soundness and uniqueness are claimed for BPh/BR. Multi-model structures are built by the harness (perturbed copies sharing identities).",
         ref="3 C11"),
+    "C05": dict(
+        technique="metamorphic testing: Hypothesis-drawn rigid motions, atom-order permutations, order-preserving relabellings and PDB-vs-mmCIF re-serialisation of corpus structures; equality of the complete annotation, margin-gated by the reference model",
+        text="Generated-input search: each drawn transformation of a real structure must leave the whole result of extract_secondary_structure (all interaction kinds, BPSEQ, dot-bracket, extended dot-bracket, elements; with and without gap detection) unchanged up to the drawn renaming. A difference counts only when every decision quantity is farther than 1e-6 from its threshold (measured with the independent reference model). Sampling of motions - no proof of invariance.",
+        note=TRUST + "Only transformations applied through unmodified code count. The PDB/mmCIF relation compares two harness-emitted files of the same atoms.",
+        ref="3 C05"),
     "C07": dict(
         technique="exhaustive enumeration of pairings + Hypothesis structures against a reference decomposition (validity + coverage predicates)",
         text="Generated-input search over all pairings on <=8/11 positions and drawn structures up to ~150 nt; stems and hairpins are compared as sets with an independent decomposition, loops are checked by a validity predicate (closed cycle, paired ends, unpaired interiors), coverage of every unpaired nucleotide exactly once, and every strand's text against slices.",
